@@ -1,6 +1,8 @@
 """C09 — unvalidated traffic allocates no connection state."""
 from rules.common import *
 
+# Entry API methods that only act on a vacant entry (insert-if-absent by HashMap semantics)
+ENTRY_ABSENT_ONLY = {'or_insert', 'or_insert_with', 'or_insert_with_key', 'or_default'}
 ALLOWED_NONGROWTH = {'contains_key', 'get_mut', 'get', 'len', 'is_empty'}
 GROWTH = {'insert', 'entry', 'extend', 'try_insert', 'get_or_insert_with', 'extend_one', 'from_iter', 'raw_entry_mut'}
 
@@ -42,6 +44,15 @@ def table_discipline(ctx, pfx):
         key = '%s:%s' % (fid, name)
         if fid not in TABLE_FNS:
             rep.bad(r1, key, 'connection-table operation outside proto::tcb', f.loc(bi))
+        elif name == 'entry' and fid == 'proto::tcb::add_tcb':
+            # insert-if-absent spelled with the entry API: entry(key).or_insert(..), nothing else done with the entry
+            ev = f.call_val(bi)
+            uses = [(b2, t2) for b2, t2 in f.calls() if b2 != bi and any(x == ev for a_ in range(len(t2['args'])) for x in walk(f.argv(b2, a_)))]
+            ok = peel(f.argv(bi, 1)) == ('param', 1) and len(uses) == 1 and uses[0][1]['name'] in ENTRY_ABSENT_ONLY and peel(f.argv(uses[0][0], 0), unwraps=False) == ev
+            rep.check(r1, ok, key, 'growth op entry(%s) consumed by %s (vacant-only: %s)' % (short(f.argv(bi, 1)), [t2['name'] for _, t2 in uses], ok), f.loc(bi))
+        elif name in ENTRY_ABSENT_ONLY and fid == 'proto::tcb::add_tcb':
+            recv = peel(f.argv(bi, 0), unwraps=False)
+            rep.check(r1, is_call(recv, r'HashMap::<[^>]*>::entry$'), key, 'vacant-only entry operation on %s' % short(recv)[:60], f.loc(bi))
         elif name in GROWTH:
             ok = fid == 'proto::tcb::add_tcb' and name == 'insert'
             det = 'growth op %s' % name
@@ -83,8 +94,13 @@ def table_discipline(ctx, pfx):
         rep.check(r2, okarm, 'add_tcb:arm', 'call site is inside the arm selected by %d flag values, all containing PSH|ACK: %s' % (len(vals), okarm), tcp.loc(bi))
         key_e = peel(tcp.argv(bi, 0))
         is_gen = is_call(key_e, r'^synackcookie::generate$')
-        gate = eq_edges(tcp, lambda a, b: peel(a) == key_e and is_ack_minus_one(tcp, b))
-        off = tcp.must_pass(gate, [bi]) if gate else [bi]
+        def pair(a, b):
+            return peel(a) == key_e and is_ack_minus_one(tcp, b)
+
+        def cmp_key(k):
+            return isinstance(k, tuple) and k[0] == 'bin' and k[1] in ('Eq', 'Ne') and (pair(k[2], k[3]) or pair(k[3], k[2]))
+        at = path_states_at(tcp, [bi], lambda k: True, stable_fn=cmp_key)[bi]
+        off = not at or any(cmp_fact(fs, pair) != 'eq' for fs in at)
         rep.check(r2, is_gen and not off, 'add_tcb:validated',
                   'key = %s; every path to add_tcb establishes key == (ack-1 mod 2^32): %s' % (short(key_e), not off), tcp.loc(bi))
 
